@@ -290,6 +290,49 @@ func RunCheck(opt Options) int {
 			}
 		}
 	}
+	// ... and, transitively, every contracted function of the module they call, spawn, defer or
+	// make a closure of: a caller is verified against its callees' contracts, so those contracts
+	// are part of this property's proof and are discharged here (their untagged clauses and
+	// those tagged for this property), not left to another property's run
+	P.proveAll = map[*ssa.Function]bool{}
+	nDirect := len(fns)
+	for i := 0; i < len(fns); i++ {
+		var visit func(f *ssa.Function)
+		add := func(g *ssa.Function) {
+			if g == nil || inFns[g] || g.Blocks == nil || !fnInModule(g) {
+				return
+			}
+			ct := P.Contracts[g]
+			if ct == nil || ct.Trusted {
+				return
+			}
+			inFns[g] = true
+			P.proveAll[g] = true
+			fns = append(fns, g)
+		}
+		visit = func(f *ssa.Function) {
+			for _, b := range f.Blocks {
+				for _, in := range b.Instrs {
+					switch v := in.(type) {
+					case ssa.CallInstruction:
+						add(v.Common().StaticCallee())
+						if v.Common().IsInvoke() {
+							// every implementation in the module of an interface method under contract
+							if ic := P.ifaceContract(v.Common()); ic != nil {
+								for _, impl := range P.IfaceImpls[ic.Pkg+"."+ic.Name] {
+									add(impl)
+								}
+							}
+						}
+					case *ssa.MakeClosure:
+						add(v.Fn.(*ssa.Function))
+					}
+				}
+			}
+		}
+		visit(fns[i])
+	}
+	_ = nDirect
 	sort.Slice(fns, func(i, j int) bool { return fns[i].String() < fns[j].String() })
 	for _, u := range P.Unbound {
 		failedBind = append(failedBind, u)
